@@ -33,3 +33,15 @@ package transports
 //@ func Transport.Sid()
 //@   pure
 //@   ensures result == this.$sid
+
+// effects of the mutators on the model fields (each in-repo transport is built on *transport)
+//@ func Transport.Close(fn)
+//@   modifies this.$rstate, this.$writable, this.$discarded
+//@ func Transport.Discard()
+//@   modifies this.$discarded
+//@   ensures this.$discarded
+//@ func Transport.SetSid(sid)
+//@   modifies this.$sid
+//@   ensures this.$sid == sid
+//@ func Transport.Send(packets)
+//@   modifies this.$writable
